@@ -1620,3 +1620,461 @@ Proof.
   - apply drains_alive_le.
   - intros Hst. apply stopped_needs_drain; [split; assumption|exact Hst].
 Qed.
+
+(* ------------------------------------------------------------------ *)
+(* answers, hooks and the stop event of every step (towards oracle soundness) *)
+
+Definition special (x : ev) : bool :=
+  match x with EAccept _ | EReject _ | EDropped _ | EStopped | EHook _ => true | _ => false end.
+Definition sp (e : list ev) : list ev := filter special e.
+
+Lemma sp_app a b : sp (a ++ b) = sp a ++ sp b.
+Proof. apply filter_app. Qed.
+
+Lemma sp_shed l : sp (shed_events l) = [].
+Proof. unfold sp, shed_events. induction l; cbn; auto. Qed.
+
+Definition answer_of (id : N) (l : list ev) : Prop := l = [EAccept id] \/ l = [EReject id].
+
+Lemma sp_filter_answered id e : answer_of id (sp e) \/ sp e = [] -> sp (filter (answered id) e) = [].
+Proof.
+  intros H. unfold sp in *.
+  assert (E : filter special (filter (answered id) e) = filter (answered id) (filter special e)).
+  { clear H. induction e as [|x r IH]; cbn [filter]; [reflexivity|].
+    destruct (answered id x) eqn:Ea, (special x) eqn:Es; cbn [filter]; rewrite ?Ea, ?Es; rewrite IH; reflexivity. }
+  rewrite E. unfold answer_of in H. destruct H as [[H|H]|H]; rewrite H; cbn [filter answered];
+    rewrite ?N.eqb_refl; reflexivity.
+Qed.
+
+Lemma enqueue_job_sp c w j : answer_of (jid j) (sp (snd (enqueue_job c w j))).
+Proof.
+  unfold enqueue_job.
+  destruct (match wsettings c with Some (l, Newest) => negb (w_available w) && (l <=? len (w_q w)) | _ => false end);
+    [right; reflexivity|].
+  left. destruct (w_cur w).
+  - destruct (wsettings c) as [[l [|]]|]; cbn [snd]; try reflexivity.
+    change (sp ([EAccept (jid j)] ++ shed_events (firstn (length (w_q w ++ [j]) - N.to_nat l) (w_q w ++ [j]))) = [EAccept (jid j)]).
+    rewrite sp_app, sp_shed. reflexivity.
+  - destruct (w_q w); reflexivity.
+Qed.
+
+Lemma route_inner_sp c s j hint s' r e : route_inner c s j hint = (s', r, e) ->
+  (r = Handled /\ answer_of (jid j) (sp e)) \/ (r = Backlog /\ e = []).
+Proof.
+  unfold route_inner. destruct (choose c (f_rs s) j (f_size s) hint (f_pool s)) as [rs' [i|]];
+    [|intros H; inversion H; right; split; reflexivity].
+  cbn [set_rs f_pool]. destruct (find_w (f_pool s) i) as [w|]; [|intros H; inversion H; right; split; reflexivity].
+  pose proof (enqueue_job_sp c w j) as Hq. destruct (enqueue_job c w j) as [w' ev]. cbn [snd] in Hq.
+  intros H; inversion H; subst. left. split; [reflexivity|exact Hq].
+Qed.
+
+Lemma route_sp c s j hint s' r e : route c s j hint = (s', r, e) ->
+  (r = Handled /\ answer_of (jid j) (sp e)) \/ (r <> Handled /\ e = []).
+Proof.
+  assert (G : forall s0 s1 r1 e1, route_inner c s0 j hint = (s1, r1, e1) ->
+              (r1 = Handled /\ answer_of (jid j) (sp e1)) \/ (r1 <> Handled /\ e1 = [])).
+  { intros s0 s1 r1 e1 H. destruct (route_inner_sp _ _ _ _ _ _ _ H) as [[A B]|[A B]]; [left; split; assumption|].
+    right. split; [rewrite A; discriminate|exact B]. }
+  unfold route. destruct (c_rate c) as [[rc ini]|]; [|apply G].
+  destruct (f_bucket s) as [b|]; [|apply G].
+  destruct (check rc b (f_now s)) as [b' ok]. destruct ok.
+  - destruct (route_inner c (set_bucket s (Some b')) j hint) as [[s2 r2] e2] eqn:E.
+    apply G in E. intros H. destruct r2; inversion H; subst; exact E.
+  - intros H; inversion H. right. split; [discriminate|reflexivity].
+Qed.
+
+Lemma try_route_sp c fuel : forall s hint s' e, try_route c fuel s hint = (s', e) -> sp e = [].
+Proof.
+  induction fuel as [|f IH]; intros s hint s' e; cbn [try_route]; [intros H; inversion H; reflexivity|].
+  destruct (pop_front (c_queue c) (f_q s)) as [[j q']|]; [|intros H; inversion H; reflexivity].
+  destruct (choose c (f_rs s) j (f_size s) hint (f_pool s)) as [rs' [i|]]; [|intros H; inversion H; reflexivity].
+  destruct (route c (set_fq (set_rs s rs') q') j (Some i)) as [[s2 r] e0] eqn:Er.
+  assert (Hf : sp (filter (answered (jid j)) e0) = []).
+  { apply sp_filter_answered. destruct (route_sp _ _ _ _ _ _ _ Er) as [[_ A]|[_ A]]; [left; exact A|right; rewrite A; reflexivity]. }
+  intros H. destruct r.
+  - inversion H; subst. exact Hf.
+  - inversion H; subst. rewrite sp_app, Hf. reflexivity.
+  - destruct (try_route c f s2 hint) as [s3 e'] eqn:Et. inversion H; subst.
+    rewrite sp_app, Hf. cbn [app]. change (sp (EDiscard (jid j) RateLimited :: e')) with (sp e').
+    eapply IH; eassumption.
+Qed.
+
+Lemma shed_fq_sp k l fuel : forall q, sp (snd (shed_fq k l fuel q)) = [].
+Proof.
+  induction fuel as [|f IH]; intros q; cbn [shed_fq]; [reflexivity|].
+  destruct (l <? len q); [|reflexivity]. destruct (discard_oldest k q) as [[x q']|]; [|reflexivity].
+  specialize (IH q'). destruct (shed_fq k l f q') as [q'' e]. cbn [snd] in *. exact IH.
+Qed.
+
+Lemma maybe_enqueue_sp c q j : answer_of (jid j) (sp (snd (maybe_enqueue c q j))).
+Proof.
+  unfold maybe_enqueue. destruct (c_discard c) as [[l [|]]|]; [| |left; reflexivity].
+  - destruct (discardable c j && (l <=? len q)); [right|left]; reflexivity.
+  - pose proof (shed_fq_sp (c_queue c) l (length (q ++ [j])) (q ++ [j])) as H.
+    destruct (shed_fq (c_queue c) l (length (q ++ [j])) (q ++ [j])) as [q2 e]. cbn [snd] in *.
+    left. change (sp ([EAccept (jid j)] ++ e) = [EAccept (jid j)]). rewrite sp_app, H. reflexivity.
+Qed.
+
+(* a dispatch handled by the living factory is answered exactly once, and with its own id *)
+Lemma dispatch_sp c s j s' e : dispatch c s j = (s', e) -> answer_of (jid j) (sp e).
+Proof.
+  unfold dispatch. destruct (f_drain s); try (intros H; inversion H; right; reflexivity).
+  destruct (route c s j None) as [[s1 r] e1] eqn:Er. intros H.
+  destruct (route_sp _ _ _ _ _ _ _ Er) as [[A B]|[A B]].
+  - subst r. inversion H; subst. exact B.
+  - subst e1. destruct r; [contradiction| |].
+    + pose proof (maybe_enqueue_sp c (f_q s1) j) as Hm. destruct (maybe_enqueue c (f_q s1) j) as [q' e'].
+      inversion H; subst. exact Hm.
+    + inversion H; subst. right. reflexivity.
+Qed.
+
+Lemma worker_finished_sp c s i s' e : worker_finished c s i = (s', e) -> sp e = [].
+Proof.
+  unfold worker_finished. destruct (find_w (f_pool s) i) as [w|]; [|intros H; inversion H; reflexivity].
+  assert (Hq : sp (snd (worker_complete w)) = []) by (unfold worker_complete; destruct (w_q w); reflexivity).
+  destruct (worker_complete w) as [w' e1]. cbn [snd] in Hq. destruct (w_drain w').
+  - destruct (w_working w'); intros H; inversion H; subst; exact Hq.
+  - unfold try_route_next.
+    match goal with |- context [try_route c ?f ?st (Some i)] => destruct (try_route c f st (Some i)) as [s2 e'] eqn:Et end.
+    intros H; inversion H; subst. rewrite sp_app, Hq, (try_route_sp _ _ _ _ _ _ Et). reflexivity.
+Qed.
+
+Lemma worker_died_sp c s i s' e : worker_died c s i = (s', e) -> sp e = [].
+Proof.
+  unfold worker_died. destruct (find_w (f_pool s) i) as [w|]; [|intros H; inversion H; reflexivity].
+  assert (Hl : sp (match w_cur w with Some j => [ELost (jid j)] | None => [] end) = [])
+    by (destruct (w_cur w); reflexivity).
+  destruct (w_drain w && match w_q w with [] => true | _ => false end);
+    [intros H; inversion H; subst; exact Hl|].
+  unfold build, try_route_next. cbn [set_builds f_pool].
+  set (w0 := mkW (w_id w) None (w_q w) (w_drain w) (assoc i (f_builds s) + 1)).
+  assert (H1 : sp (snd (match w_q w0 with j :: r => dispatch_job (set_q w0 r) j | [] => (w0, []) end)) = [])
+    by (destruct (w_q w0); reflexivity).
+  destruct (match w_q w0 with j :: r => dispatch_job (set_q w0 r) j | [] => (w0, []) end) as [w1 e1]. cbn [snd] in H1.
+  match goal with |- context [try_route c ?f ?st (Some i)] => destruct (try_route c f st (Some i)) as [s2 e'] eqn:Et end.
+  intros H; inversion H; subst. rewrite !sp_app, Hl, H1, (try_route_sp _ _ _ _ _ _ Et). reflexivity.
+Qed.
+
+Lemma route_queued_sp c n : forall s s' e, route_queued c s n = (s', e) -> sp e = [].
+Proof.
+  induction n as [|k IH]; intros s s' e; cbn [route_queued]; [intros H; inversion H; reflexivity|].
+  destruct (f_q s); [intros H; inversion H; reflexivity|].
+  unfold try_route_next. destruct (try_route c _ s None) as [s1 e1] eqn:Et.
+  destruct (route_queued c s1 k) as [s2 e2] eqn:Er. intros H. inversion H; subst.
+  rewrite sp_app, (try_route_sp _ _ _ _ _ _ Et), (IH _ _ _ Er). reflexivity.
+Qed.
+
+Lemma resize_sp c s n s' e : resize c s n = (s', e) -> sp e = [].
+Proof.
+  unfold resize. destruct (n =? 0); [intros H; inversion H; reflexivity|].
+  destruct (f_size s <? N.min pool_max n); [apply route_queued_sp|].
+  destruct (N.min pool_max n <? f_size s); intros H; inversion H; reflexivity.
+Qed.
+
+Definition stop_evs (b : bool) : list ev := if b then [EHook HStopped; EStopped] else [].
+
+Lemma stop_factory_sp s : sp (snd (stop_factory s)) = stop_evs true.
+Proof.
+  unfold stop_factory. cbn [snd]. rewrite sp_app.
+  replace (sp (map (fun j => EDiscard (jid j) Shutdown) (f_q s))) with (@nil ev); [reflexivity|].
+  induction (f_q s); cbn; auto.
+Qed.
+
+Lemma after_message_sp s : f_stopped s = false ->
+  sp (snd (after_message s)) = stop_evs (f_stopped (fst (after_message s))).
+Proof.
+  intros Hns. unfold after_message. destruct (f_drain s).
+  - cbn [fst snd]. rewrite Hns. reflexivity.
+  - destruct (all_available (f_pool s) && (len (f_q s) =? 0)).
+    + rewrite stop_factory_sp. reflexivity.
+    + cbn [fst snd]. rewrite Hns. reflexivity.
+  - rewrite stop_factory_sp. reflexivity.
+Qed.
+
+Lemma with_after_sp r : f_stopped (fst r) = false ->
+  sp (snd (with_after r)) = sp (snd r) ++ stop_evs (f_stopped (fst (with_after r))).
+Proof.
+  destruct r as [s0 e0]. cbn [fst snd]. intros Hns. unfold with_after.
+  pose proof (after_message_sp s0 Hns) as H. destruct (after_message s0) as [s1 e1]. cbn [fst snd] in *.
+  rewrite sp_app, H. reflexivity.
+Qed.
+
+Lemma finish_w_sp c s i only : f_stopped s = false ->
+  sp (snd (finish_w c s i only)) = stop_evs (f_stopped (fst (finish_w c s i only))).
+Proof.
+  intros Hns. unfold finish_w. rewrite Hns.
+  destruct (find_w (f_pool s) i) as [w|]; [|cbn [fst snd]; rewrite Hns; reflexivity].
+  destruct (w_cur w) as [j|]; [|cbn [fst snd]; rewrite Hns; reflexivity].
+  destruct (match only with Some id => jid j =? id | None => true end); [|cbn [fst snd]; rewrite Hns; reflexivity].
+  destruct (worker_finished c s i) as [s0 e0] eqn:Ew. pose proof (worker_finished_sp _ _ _ _ _ Ew) as Hq.
+  destruct (worker_finished_quiet _ _ _ _ _ Ew) as [_ Hs].
+  pose proof (with_after_sp (s0, e0)) as H. cbn [fst snd] in H. specialize (H ltac:(congruence)).
+  destruct (with_after (s0, e0)) as [s1 e1]. cbn [fst snd] in *.
+  change (sp (EEnd (jid j) :: e1)) with (sp e1). rewrite H, Hq. reflexivity.
+Qed.
+
+Lemma finish_list_stopped c l : forall s, f_stopped s = true -> finish_list c s l = (s, []).
+Proof.
+  induction l as [|[i id] r IH]; intros s Hs; cbn [finish_list]; [reflexivity|].
+  unfold finish_w. rewrite Hs. rewrite (IH s Hs). reflexivity.
+Qed.
+
+Lemma finish_list_sp c l : forall s, f_stopped s = false ->
+  sp (snd (finish_list c s l)) = stop_evs (f_stopped (fst (finish_list c s l))).
+Proof.
+  induction l as [|[i id] r IH]; intros s Hns; cbn [finish_list]; [cbn [fst snd]; rewrite Hns; reflexivity|].
+  pose proof (finish_w_sp c s i (Some id) Hns) as H1.
+  destruct (finish_w c s i (Some id)) as [s1 e1] eqn:E1. cbn [fst snd] in H1.
+  destruct (f_stopped s1) eqn:Hs1.
+  - rewrite (finish_list_stopped c r s1 Hs1). cbn [fst snd]. rewrite app_nil_r, Hs1. exact H1.
+  - specialize (IH s1 Hs1). destruct (finish_list c s1 r) as [s2 e2]. cbn [fst snd] in *.
+    rewrite sp_app, H1. exact IH.
+Qed.
+
+(* the special events of one label from a living factory *)
+Definition step_answer (o : fop) (l : list ev) : Prop :=
+  match o with
+  | FDispatch j => answer_of (jid j) l
+  | FDrain => l = [EHook HDraining]
+  | _ => l = []
+  end.
+
+Lemma step_sp c s o :
+  (f_stopped s = true ->
+     sp (snd (step c s o)) = match o with FDispatch j => [EDropped (jid j)] | _ => [] end
+     /\ f_stopped (fst (step c s o)) = true)
+  /\ (f_stopped s = false ->
+      exists l, step_answer o l /\ sp (snd (step c s o)) = l ++ stop_evs (f_stopped (fst (step c s o)))).
+Proof.
+  split; intros Hst.
+  - destruct o; cbn [step]; unfold finish_w; try rewrite Hst; try (split; [reflexivity|exact Hst]).
+    rewrite (finish_list_stopped c _ s Hst). split; [reflexivity|exact Hst].
+  - destruct o as [j|i| |i|i|n| |dt| |]; cbn [step step_answer]; try rewrite Hst.
+    + destruct (dispatch c s j) as [s0 e0] eqn:Ed. pose proof (dispatch_sp _ _ _ _ _ Ed) as Hq.
+      destruct (dispatch_frame _ _ _ _ _ Ed) as (_ & _ & F3 & _).
+      exists (sp e0). split; [exact Hq|]. apply (with_after_sp (s0, e0)). cbn [fst]. congruence.
+    + exists []. split; [reflexivity|]. apply finish_w_sp. exact Hst.
+    + exists []. split; [reflexivity|]. apply finish_list_sp. exact Hst.
+    + exists []. split; [reflexivity|].
+      destruct (find_w (f_pool s) i) as [w|]; [|cbn [fst snd]; rewrite Hst; reflexivity].
+      destruct (w_cur w); [|cbn [fst snd]; rewrite Hst; reflexivity].
+      destruct (worker_died c s i) as [s' e] eqn:E. destruct (worker_died_quiet _ _ _ _ _ E) as [_ Hs].
+      cbn [fst snd]. rewrite (worker_died_sp _ _ _ _ _ E), Hs, Hst. reflexivity.
+    + exists []. split; [reflexivity|].
+      destruct (worker_died c s i) as [s' e] eqn:E. destruct (worker_died_quiet _ _ _ _ _ E) as [_ Hs].
+      cbn [fst snd]. rewrite (worker_died_sp _ _ _ _ _ E), Hs, Hst. reflexivity.
+    + exists []. split; [reflexivity|].
+      destruct (resize c s n) as [s0 e0] eqn:Ed. destruct (resize_quiet _ _ _ _ _ Ed) as [_ Hs].
+      pose proof (with_after_sp (s0, e0)) as H. cbn [fst snd] in H. rewrite H by congruence.
+      rewrite (resize_sp _ _ _ _ _ Ed). reflexivity.
+    + exists [EHook HDraining]. split; [reflexivity|].
+      pose proof (with_after_sp (set_dstate s Draining, [EHook HDraining])) as H. cbn [fst snd] in H.
+      rewrite H by exact Hst. reflexivity.
+    + exists []. split; [reflexivity|]. cbn [fst snd set_now f_stopped]. rewrite Hst. reflexivity.
+    + exists []. split; [reflexivity|]. cbn [fst snd set_now f_stopped]. rewrite Hst. reflexivity.
+    + exists []. split; [reflexivity|].
+      pose proof (after_message_sp s Hst) as H. destruct (after_message s) as [s1 e1]. cbn [fst snd] in H.
+      destruct (f_stopped s1) eqn:Hs1; cbn [fst snd]; rewrite Hs1.
+      * rewrite sp_app, H. reflexivity.
+      * reflexivity.
+Qed.
+
+(* ------------------------------------------------------------------ *)
+(* the oracle accepts the model's own runs: clauses hooks_order and drain_refuses *)
+
+Lemma windows_from_flat c ops : forall s co ce,
+  evs_of (windows_from c s co ce ops) = ce ++ concat (run_from c s ops)
+  /\ ops_of (windows_from c s co ce ops) = co ++ ops.
+Proof.
+  unfold evs_of, ops_of. induction ops as [|o r IH]; intros s co ce; cbn [windows_from run_from concat].
+  { destruct co, ce; cbn; rewrite ?app_nil_r; split; reflexivity. }
+  destruct (step c s o) as [s' e] eqn:Es.
+  destruct o; cbn [map concat fst snd];
+    try (match goal with |- context [windows_from c s' (co ++ [?x]) (ce ++ e) r] =>
+           destruct (IH s' (co ++ [x]) (ce ++ e)) as [A B]; rewrite A, B, <- !app_assoc; split; reflexivity end).
+  destruct (IH s' [] []) as [A B]. rewrite A, B. cbn [app]. rewrite <- !app_assoc. split; reflexivity.
+Qed.
+
+Lemma model_windows_flat c ops :
+  evs_of (model_windows c ops) = concat (factory_run c ops) /\ ops_of (model_windows c ops) = ops.
+Proof.
+  unfold model_windows, factory_run. destruct (init c 0) as [s e].
+  destruct (windows_from_flat c ops s [] e) as [A B]. rewrite A, B. split; reflexivity.
+Qed.
+
+Lemma existsb_sp (f : ev -> bool) e : (forall x, f x = true -> special x = true) ->
+  existsb f e = existsb f (sp e).
+Proof.
+  intros Hf. unfold sp. induction e as [|x r IH]; cbn [existsb filter]; [reflexivity|].
+  destruct (special x) eqn:Es; cbn [existsb]; rewrite IH; [reflexivity|].
+  destruct (f x) eqn:Ef; [rewrite (Hf x Ef) in Es; discriminate|reflexivity].
+Qed.
+
+Lemma stopped_special x : is_stopped x = true -> special x = true.
+Proof. destruct x; cbn; congruence. Qed.
+Lemma accept_special id x : is_accept id x = true -> special x = true.
+Proof. destruct x; cbn; congruence. Qed.
+
+Lemma step_answer_no_stop o l : step_answer o l -> existsb is_stopped l = false.
+Proof. destruct o; cbn [step_answer]; try (intros ->; reflexivity). intros [->| ->]; reflexivity. Qed.
+
+(* EStopped is only ever seen when the factory has stopped *)
+Lemma run_stopped_event c ops : forall s,
+  existsb is_stopped (concat (run_from c s ops)) = true -> f_stopped (state_after c s ops) = true.
+Proof.
+  induction ops as [|o r IH]; intros s; cbn [run_from concat state_after existsb]; [discriminate|].
+  destruct (step_sp c s o) as [S1 S2]. destruct (step_hooks c s o) as [T1 _].
+  destruct (step c s o) as [s1 e1] eqn:Es. cbn [fst snd concat] in *. rewrite existsb_app.
+  intros H. apply orb_true_iff in H. destruct H as [H|H]; [|apply IH; exact H].
+  rewrite (existsb_sp is_stopped e1 stopped_special) in H.
+  assert (Hs1 : f_stopped s1 = true).
+  { destruct (f_stopped s) eqn:Hst.
+    - destruct (S1 eq_refl) as [A B]. exact B.
+    - destruct (S2 eq_refl) as (l & Hl & E). rewrite E, existsb_app, (step_answer_no_stop _ _ Hl) in H.
+      destruct (f_stopped s1); [reflexivity|discriminate]. }
+  clear -Hs1. revert s1 Hs1. induction r as [|o' r' IH']; intros s1 Hs1; cbn [state_after]; [exact Hs1|].
+  apply IH'. destruct (step_hooks c s1 o') as [T _]. apply T. exact Hs1.
+Qed.
+
+Lemma count_hook_app h a b : count_hook h (a ++ b) = (count_hook h a + count_hook h b)%nat.
+Proof. unfold count_hook. rewrite filter_app, app_length. reflexivity. Qed.
+
+Lemma count_hook_repeat h k : count_hook h (repeat HDraining k) = if hook_eqb h HDraining then k else 0%nat.
+Proof.
+  unfold count_hook. induction k as [|k IH]; cbn [repeat filter]; [destruct (hook_eqb h HDraining); reflexivity|].
+  destruct (hook_eqb h HDraining) eqn:E; cbn [length]; rewrite IH; reflexivity.
+Qed.
+
+Lemma rev_repeat {A} (x : A) k : rev (repeat x k) = repeat x k.
+Proof.
+  induction k as [|k IH]; [reflexivity|]. cbn [repeat rev]. rewrite IH.
+  clear IH. induction k as [|k IH]; [reflexivity|]. cbn [repeat app]. rewrite IH. reflexivity.
+Qed.
+
+Theorem oracle_hooks_sound c ops : ops <> [] -> ck_hooks (model_windows c ops) = true.
+Proof.
+  intros Hne. unfold ck_hooks. destruct (model_windows_flat c ops) as [Ee Eo]. rewrite Ee, Eo.
+  destruct (hooks_order c ops) as (Hh & Hk & Hs). cbn zeta in *.
+  set (k := drains_alive c (fst (init c 0)) ops) in *.
+  set (b := f_stopped (state_after c (fst (init c 0)) ops)) in *.
+  rewrite Hh.
+  assert (Hfirst : exists rest, concat (factory_run c ops) = EHook HStarted :: rest).
+  { unfold factory_run. destruct (init_calm c 0) as [_ He]. destruct (init c 0) as [s0 e0]. cbn [snd] in He. subst e0.
+    cbn [concat app]. eauto. }
+  destruct Hfirst as [rest Hf]. rewrite Hf.
+  assert (Hst : existsb is_stopped (EHook HStarted :: rest) = true -> b = true).
+  { rewrite <- Hf. unfold factory_run. destruct (init_calm c 0) as [_ He]. unfold b.
+    destruct (init c 0) as [s0 e0]. cbn [fst snd] in *. subst e0. cbn [concat app existsb is_stopped orb].
+    apply run_stopped_event. }
+  change (HStarted :: repeat HDraining k ++ stopped_hook b) with ([HStarted] ++ repeat HDraining k ++ stopped_hook b).
+  rewrite !count_hook_app, !count_hook_repeat. cbn [hook_eqb].
+  repeat (apply andb_true_iff; split).
+  - reflexivity.
+  - destruct b; reflexivity.
+  - destruct b; reflexivity.
+  - apply Nat.leb_le. unfold count_drains in Hk. destruct b; cbn [stopped_hook count_hook filter hook_eqb length]; lia.
+  - rewrite !rev_app_distr, rev_repeat. destruct b; cbn [stopped_hook rev app]; [reflexivity|].
+    destruct k; reflexivity.
+  - destruct (existsb is_stopped (EHook HStarted :: rest)) eqn:E; [|reflexivity].
+    rewrite (Hst eq_refl) in *. specialize (Hs eq_refl). cbn [stopped_hook count_hook filter hook_eqb length].
+    apply andb_true_iff. split; [reflexivity|]. apply Nat.leb_le. lia.
+Qed.
+
+(* accept events name jobs dispatched in the run *)
+Lemma step_answer_accept o l id : step_answer o l -> existsb (is_accept id) l = true ->
+  exists j, o = FDispatch j /\ jid j = id.
+Proof.
+  destruct o; cbn [step_answer]; try (intros ->; discriminate).
+  intros [->| ->]; cbn [existsb is_accept orb]; [|discriminate].
+  rewrite orb_false_r. intros E. apply N.eqb_eq in E. eauto.
+Qed.
+
+Lemma stop_evs_no_accept id b : existsb (is_accept id) (stop_evs b) = false.
+Proof. destruct b; reflexivity. Qed.
+
+Lemma step_accept c s o id : existsb (is_accept id) (snd (step c s o)) = true ->
+  f_stopped s = false /\ exists j, o = FDispatch j /\ jid j = id.
+Proof.
+  rewrite (existsb_sp (is_accept id) _ (accept_special id)).
+  destruct (step_sp c s o) as [S1 S2]. destruct (f_stopped s) eqn:Hst.
+  - destruct (S1 eq_refl) as [A _]. rewrite A. destruct o; cbn; discriminate.
+  - destruct (S2 eq_refl) as (l & Hl & E). rewrite E, existsb_app, stop_evs_no_accept, orb_false_r.
+    intros H. split; [reflexivity|]. eapply step_answer_accept; eassumption.
+Qed.
+
+Lemma run_accept_ids c ops : forall s id,
+  existsb (is_accept id) (concat (run_from c s ops)) = true -> In id (map jid (jobs_of ops)).
+Proof.
+  induction ops as [|o r IH]; intros s id; cbn [run_from concat existsb]; [discriminate|].
+  pose proof (step_accept c s o id) as Ha. destruct (step c s o) as [s1 e1]. cbn [fst snd concat] in *.
+  rewrite existsb_app. intros H. apply orb_true_iff in H. destruct H as [H|H].
+  - destruct (Ha H) as (_ & j & -> & <-). cbn [jobs_of flat_map app map]. left. reflexivity.
+  - specialize (IH s1 id H). unfold jobs_of in *. cbn [flat_map]. rewrite map_app. apply in_or_app. right. exact IH.
+Qed.
+
+Lemma after_drain_ids_sub ops : forall seen id, In id (after_drain_ids ops seen) -> In id (map jid (jobs_of ops)).
+Proof.
+  induction ops as [|o r IH]; intros seen id; cbn [after_drain_ids]; [contradiction|].
+  unfold jobs_of in *. cbn [flat_map]. rewrite map_app.
+  destruct o; cbn [map app]; try (intros H; apply (IH _ _ H)).
+  destruct seen; [intros [->|H]; [left; reflexivity|right; apply (IH _ _ H)]|intros H; right; apply (IH _ _ H)].
+Qed.
+
+Lemma drain_closing c s : closing (fst (step c s FDrain)).
+Proof.
+  cbn [step]. destruct (f_stopped s) eqn:Hst; [right; exact Hst|].
+  destruct (with_after (set_dstate s Draining, [EHook HDraining])) as [s' e] eqn:E. cbn [fst].
+  eapply with_after_closing; [exact E|]. left. cbn. discriminate.
+Qed.
+
+Lemma NoDup_app_r {A} (a b : list A) : NoDup (a ++ b) -> NoDup b.
+Proof. induction a as [|x a IH]; cbn [app]; [exact (fun h => h)|]. intros H. inversion H; subst. auto. Qed.
+
+Lemma run_drain_refuses c ops : forall s seen,
+  NoDup (map jid (jobs_of ops)) -> (seen = true -> closing s) ->
+  forall id, In id (after_drain_ids ops seen) ->
+  existsb (is_accept id) (concat (run_from c s ops)) = false.
+Proof.
+  induction ops as [|o r IH]; intros s seen Hnd Hcl id Hin; cbn [run_from concat]; [reflexivity|].
+  pose proof (step_accept c s o id) as Ha. pose proof (step_closing c s o) as Hsc.
+  destruct (step c s o) as [s1 e1] eqn:Es. cbn [fst snd concat] in *. rewrite existsb_app.
+  assert (Hnd' : NoDup (map jid (jobs_of r))).
+  { unfold jobs_of in *. cbn [flat_map] in Hnd. rewrite map_app in Hnd. apply NoDup_app_r in Hnd. exact Hnd. }
+  destruct o as [j|i| |i|i|n| |dt| |]; cbn [after_drain_ids] in Hin;
+    try (apply orb_false_iff; split;
+         [destruct (existsb (is_accept id) e1) eqn:E; [destruct (Ha eq_refl) as (_ & j' & Hj & _); discriminate|reflexivity]
+         |apply (IH s1 seen Hnd' (fun h => Hsc (Hcl h)) id Hin)]).
+  - (* dispatch *)
+    apply orb_false_iff. destruct seen.
+    + pose proof (Hcl eq_refl) as Hc. split.
+      * pose proof (drain_refuses_step c s j Hc) as (Hno & _). rewrite Es in Hno. cbn [snd] in Hno.
+        destruct (existsb (is_accept id) e1) eqn:E; [|reflexivity].
+        exfalso. clear -Hno E. induction e1 as [|x t IHt]; [discriminate|]. cbn [existsb] in *.
+        apply orb_false_iff in Hno. destruct Hno as [H1 H2]. apply orb_true_iff in E. destruct E as [E|E]; [|auto].
+        destruct x; cbn in *; congruence.
+      * destruct Hin as [<-|Hin].
+        -- destruct (existsb (is_accept (jid j)) (concat (run_from c s1 r))) eqn:E; [|reflexivity].
+           exfalso. apply run_accept_ids in E. unfold jobs_of in Hnd. cbn [flat_map app map] in Hnd.
+           inversion Hnd; subst. contradiction.
+        -- apply (IH s1 true Hnd' (fun _ => Hsc Hc) id Hin).
+    + split.
+      * destruct (existsb (is_accept id) e1) eqn:E; [|reflexivity].
+        destruct (Ha eq_refl) as (_ & j' & Hj & Hid). inversion Hj; subst j'.
+        exfalso. apply after_drain_ids_sub in Hin. unfold jobs_of in Hnd. cbn [flat_map app map] in Hnd.
+        inversion Hnd as [|? ? Hni _]; subst. apply Hni. exact Hin.
+      * apply (IH s1 false Hnd' (fun h => ltac:(discriminate)) id Hin).
+  - (* drain *)
+    apply orb_false_iff. split.
+    + destruct (existsb (is_accept id) e1) eqn:E; [destruct (Ha eq_refl) as (_ & j' & Hj & _); discriminate|reflexivity].
+    + apply (IH s1 true Hnd'); [|exact Hin]. intros _. pose proof (drain_closing c s) as H. rewrite Es in H. exact H.
+Qed.
+
+Theorem oracle_drain_refuses_sound c ops :
+  NoDup (map jid (jobs_of ops)) -> ck_drain_refuses (model_windows c ops) = true.
+Proof.
+  intros Hnd. unfold ck_drain_refuses. destruct (model_windows_flat c ops) as [Ee Eo]. rewrite Ee, Eo.
+  apply forallb_forall. intros id Hin. apply negb_true_iff.
+  unfold factory_run. destruct (init_calm c 0) as [_ He]. destruct (init c 0) as [s0 e0]. cbn [snd] in He. subst e0.
+  cbn [concat app existsb is_accept orb].
+  apply (run_drain_refuses c ops s0 false Hnd ltac:(discriminate) id Hin).
+Qed.
